@@ -2,6 +2,7 @@
    observables the real code produced; [check_*] runs the model on the inputs and compares.  Trusted to
    state the comparison correctly (DESIGN.md, trusted base). *)
 From Connectome Require Import Values Attrs VM Edges Store NameSet MiscGen.
+From Connectome Require Import GraphHashModel.
 
 Definition which_eqb (a b : which) : bool := match a, b with WH, WH | WC, WC => true | _, _ => false end.
 
@@ -90,6 +91,7 @@ Record xcase := {
   xg : graph; xout : nat;
   xcaches : list (nat * ckind);
   xcounts : list (nat * nat);       (* observed Graph.counts, sorted by node index *)
+  xghash : option (option nhash);   (* observed Graph.hash().value as a term; Some None: HashError *)
   xcalls : list xcall
 }.
 
@@ -118,6 +120,13 @@ Definition leaves_of (g : graph) : list nat :=
 Definition check_engine (c : xcase) : nat :=
   let cnt := count_entries (shape (xg c)) (leaves_of (xg c)) (xout c) 2 in
   if negb (cnt_eqb cnt (xcounts c)) then 4
+  else if negb (match xghash c with
+                | None => true
+                | Some e => match hash_graph (xg c) (leaves_of (xg c)) (S (List.length (xg c))) (xout c), e with
+                            | Some h, Some h' => heqb h h'
+                            | None, None => true
+                            | _, _ => false end
+                end) then 6
   else check_calls (xg c) (xout c) (map (fun ck => (fst ck, new_cache (snd ck))) (xcaches c)) 1 (xcalls c).
 
 Definition bad_cases {A} (check : A -> nat) (cases : list A) : list (nat * nat) :=
